@@ -119,6 +119,20 @@ class Ctx:
             obj['coq_header'] = header; obj['coq_check'] = check_fn; obj['coq_type'] = case_type; obj['coq_term'] = cases[i][0]
             out.append(obj)
         return out
+    def measure(self, stream, name, header, fn, case_type, cases, target='Corr/Check_Premises.vo', shard_chars=coqrun.SAFE_MAX_LIT):
+        """a measurement, not a verdict: on how many of the observed cases does the boolean Coq function fn hold
+        (used for: the decidable hypotheses of a theorem hold on this observed history)"""
+        if not cases or getattr(self, 'pending_broken', None):
+            return
+        ok, out = build.coq_make([target], self.log)
+        bad = build.audit_sources([target]) if ok else ['build failed']
+        if not ok or bad:
+            self.notes.append('premise measurement %s/%s skipped: %s' % (stream, name, (bad or [out[-200:]])[0]))
+            return
+        wd = os.path.join(self.scratch, 'coq_m_%s_%s' % (stream, name))
+        failing, nshards = coqrun.eval_cases(wd, header, fn, case_type, [c[0] for c in cases], shard_chars=shard_chars, log=self.log)
+        if not hasattr(self, 'premise_cov'): self.premise_cov = {}
+        self.premise_cov.setdefault(stream, {})[name] = {'observed_histories': len(cases), 'hypotheses_hold': len(cases) - len(failing), 'coq_function': fn}
     def sample(self, obj):
         if len(self.samples) < 6:
             self.samples.append(obj)
@@ -169,6 +183,7 @@ class Ctx:
             'traces_validated_against_impl': evals,
             'print_assumptions': {k: (v or ['Closed under the global context']) for k, v in self.assumption_lines.items()},
             'known_findings_reproduced': self.known_hits,
+            'theorem_premise_coverage': getattr(self, 'premise_cov', {}),
             'notes': self.notes,
         }
         evidence.write_evidence(self.prop, self.tier, self.seed, cov, self.assumptions if hasattr(self, 'assumptions') else [],
